@@ -47,6 +47,16 @@ func decodeBack(b []byte, text bool) (*ref.Frame, error) {
 			return nil, fmt.Errorf("decoding into a PHYPayload that decoded %x before gives a frame standing for %x (FPort %d), into a fresh one %x (FPort %d)", dirty[i], f2.Encode(), f2.FPort, f1.Encode(), f1.FPort)
 		}
 	}
+	// a receive loop: one variable, results kept by value while the variable decodes the next frame
+	if !text {
+		f3, err := decodeBackInto(b, false, -2)
+		if err != nil {
+			return nil, fmt.Errorf("decoded in a receive loop (one PHYPayload variable, the result kept by value, the variable then decodes %x): %v", gen.Decoy(b), err)
+		}
+		if f1.FPort != f3.FPort || !bytes.Equal(f1.Encode(), f3.Encode()) {
+			return nil, fmt.Errorf("the value kept from decoding %x stands for %x (FPort %d) after the same variable decoded %x; a fresh decode gives %x (FPort %d)", b, f3.Encode(), f3.FPort, gen.Decoy(b), f1.Encode(), f1.FPort)
+		}
+	}
 	return f1, nil
 }
 
@@ -66,6 +76,12 @@ func decodeBackInto(b []byte, text bool, dirtyIdx int) (*ref.Frame, error) {
 		if string(txt) != base64.StdEncoding.EncodeToString(b) {
 			return nil, fmt.Errorf("UnmarshalText overwrote the text it was given: %q became %q", base64.StdEncoding.EncodeToString(b), txt)
 		}
+	} else if dirtyIdx == -2 {
+		kept, err := gen.Receive(b, true)
+		if err != nil {
+			return nil, fmt.Errorf("UnmarshalBinary: %v", err)
+		}
+		q = kept
 	} else {
 		buf := append([]byte{}, b...)
 		if err := q.UnmarshalBinary(buf); err != nil {
@@ -86,7 +102,44 @@ func decodeBackInto(b []byte, text bool, dirtyIdx int) (*ref.Frame, error) {
 			}
 		}
 	}
-	return gen.FromLib(&q)
+	g, err := gen.FromLib(&q)
+	if err != nil {
+		return nil, err
+	}
+	if m, ok := q.MACPayload.(*lorawan.MACPayload); ok {
+		up := ref.IsUplinkMType(g.MType)
+		if err := cmdsMatch(up, m.FHDR.FOpts, g.FOpts, "FOpts after DecodeFOptsToMACCommands"); err != nil {
+			return nil, err
+		}
+		if m.FPort != nil && *m.FPort == 0 && len(g.FRM) > 0 {
+			if err := cmdsMatch(up, m.FRMPayload, g.FRM, "FRMPayload (port 0) after DecodeFRMPayloadToMACCommands"); err != nil {
+				return nil, err
+			}
+		}
+	}
+	return g, nil
+}
+
+// cmdsMatch: after a successful command decode the field holds the MAC commands its bytes carry, nothing else.
+func cmdsMatch(up bool, items []lorawan.Payload, raw []byte, what string) error {
+	want, err := ref.DecodeCmds(up, raw, nil)
+	if err != nil {
+		return nil // not a well-formed command stream: nothing to compare
+	}
+	if len(items) != len(want) {
+		return fmt.Errorf("%s holds %d items, the bytes %x carry %d commands", what, len(items), raw, len(want))
+	}
+	for i, it := range items {
+		mc, ok := it.(*lorawan.MACCommand)
+		if !ok {
+			return fmt.Errorf("%s: item %d is a %T although the decode reported success (bytes %x)", what, i, it, raw)
+		}
+		got := gen.ModelCmd(up, mc)
+		if got.CID != want[i].CID || !got.Vals.Equal(want[i].Vals) && !(len(got.Vals) == 0 && len(want[i].Vals) == 0) || !bytes.Equal(got.Raw, want[i].Raw) {
+			return fmt.Errorf("%s: command %d is %+v, the bytes %x carry %+v", what, i, got, raw, want[i])
+		}
+	}
+	return nil
 }
 
 func sameFrame(f, g *ref.Frame) string {
@@ -128,19 +181,36 @@ func checkFrame(c frameCase) evid.Outcome {
 		c    []byte
 	}
 	var held []heldOut
-	for variant := 0; variant < 3; variant++ {
-		asCmds := variant != 1
+	for variant := 0; variant < 4; variant++ {
+		asCmds := variant != 1 && variant != 3
 		// variant 2: absent FOpts / FRMPayload given as empty non-nil slices (the same frame value)
 		p, err := gen.ToLibOpt(f, asCmds, variant == 2)
 		if err != nil {
 			return evid.Outcome{Skip: true}
 		}
+		if variant == 3 {
+			// the bytes of FOpts / FRMPayload handed over in two pieces (header + body built separately)
+			m, ok := p.MACPayload.(*lorawan.MACPayload)
+			if !ok || len(f.FOpts) < 2 && len(f.FRM) < 2 {
+				continue
+			}
+			split := func(b []byte) []lorawan.Payload {
+				k := 1 + (len(b)+int(f.FCnt))%(len(b)-1)
+				return []lorawan.Payload{&lorawan.DataPayload{Bytes: append([]byte{}, b[:k]...)}, &lorawan.DataPayload{Bytes: append([]byte{}, b[k:]...)}}
+			}
+			if len(f.FOpts) >= 2 {
+				m.FHDR.FOpts = split(f.FOpts)
+			}
+			if len(f.FRM) >= 2 {
+				m.FRMPayload = split(f.FRM)
+			}
+		}
 		b, err := p.MarshalBinary()
 		if err != nil {
-			return evid.Fail("MarshalBinary refuses a spec-valid frame (commands as values: %v, empty lists as non-nil empty slices: %v): %v; frame bytes per spec: %x", asCmds, variant == 2, err, want)
+			return evid.Fail("MarshalBinary refuses a spec-valid frame (commands as values: %v, empty lists as non-nil empty slices: %v, bytes in two pieces: %v): %v; frame bytes per spec: %x", asCmds, variant == 2, variant == 3, err, want)
 		}
 		if !bytes.Equal(b, want) {
-			return evid.Fail("MarshalBinary (commands as values: %v) gives %x, wire model gives %x", asCmds, b, want)
+			return evid.Fail("MarshalBinary (commands as values: %v, FOpts / FRMPayload bytes in two pieces: %v) gives %x, wire model gives %x", asCmds, variant == 3, b, want)
 		}
 		txt, err := p.MarshalText()
 		if err != nil || string(txt) != base64.StdEncoding.EncodeToString(want) {
@@ -323,6 +393,6 @@ func TestProp(t *testing.T) {
 		}, checkFrame)
 
 	evid.Rapid(r, t, "frames",
-		"rapid: MType uniform over the 8 types; data frames with all FCtrl flags, boundary-biased 32-bit FCnt, FOpts = generated command sequence of a drawn exact length 0..15, FPort absent/0/1..255, FRMPayload 0..242 bytes (commands on port 0); join-request, rejoin 0/1/2, join-accept (CFList absent/channels/masks, through encrypt->decode->decrypt), proprietary. Oracle: encoder output == wire model; decode (binary and base64) + command decode gives a frame standing for the same bytes, also when decoded into a PHYPayload variable that decoded another frame before; a decoded data frame whose FOpts are then replaced by another command sequence (another length) encodes to the wire model of the changed frame; every slice MarshalBinary / MarshalText returned is kept while three other frames are encoded and must still read what it read. Non-trivial: data frame with FOpts, FPort and >16 payload bytes, or join/rejoin, or join-accept with CFList.",
+		"rapid: MType uniform over the 8 types; data frames with all FCtrl flags, boundary-biased 32-bit FCnt, FOpts = generated command sequence of a drawn exact length 0..15, FPort absent/0/1..255, FRMPayload 0..242 bytes (commands on port 0); join-request, rejoin 0/1/2, join-accept (CFList absent/channels/masks, through encrypt->decode->decrypt), proprietary. Oracle: encoder output == wire model (commands as values, as bytes, as bytes in two pieces, absent lists as empty non-nil slices); decode (binary and base64) + command decode gives a frame standing for the same bytes whose FOpts / port-0 FRMPayload hold exactly the commands of the model, also when decoded into a PHYPayload variable that decoded another frame before, and when the decoded value is kept by value while its variable decodes the next frame; a decoded data frame whose FOpts are then replaced by another command sequence (another length) encodes to the wire model of the changed frame; every slice MarshalBinary / MarshalText returned is kept while three other frames are encoded and must still read what it read. Non-trivial: data frame with FOpts, FPort and >16 payload bytes, or join/rejoin, or join-accept with CFList.",
 		120000, 6000000, genFrame, checkFrame)
 }
